@@ -39,7 +39,7 @@ class Grad(_Differentiate[Gradients]):
         if len(outputs) == 0:
             return tuple(
                 [
-                    torch.empty(input.shape, device=input.device, dtype=input.dtype)
+                    torch.zeros(input.shape, device=input.device, dtype=input.dtype)
                     for input in inputs
                 ]
             )
